@@ -50,6 +50,37 @@ class LocalHashFileDB(HashFileDB):
         # being ~5.5 times faster.
         return f"{self.path}{os.sep}{oid[0:2]}{os.sep}{oid[2:]}"
 
+    def add(  # noqa: PLR0913
+        self,
+        path,
+        fs,
+        oid,
+        hardlink: bool = False,
+        callback=DEFAULT_CALLBACK,
+        check_exists: bool = True,
+        on_error=None,
+        **kwargs,
+    ) -> int:
+        if check_exists:
+            # An unprotected object may be the leftover of an interrupted add
+            # (e.g. a killed link attempt): verify it before the existence
+            # check makes us skip it and then protect and record it as valid.
+            for o in [oid] if isinstance(oid, str) else oid:
+                try:
+                    self.check(o)
+                except (FileNotFoundError, ObjectFormatError):
+                    pass
+        return super().add(
+            path,
+            fs,
+            oid,
+            hardlink=hardlink,
+            callback=callback,
+            check_exists=check_exists,
+            on_error=on_error,
+            **kwargs,
+        )
+
     def oids_exist(self, oids, jobs=None, progress=noop):
         ret = []
         progress = partial(progress, "querying", len(oids))
